@@ -1987,6 +1987,53 @@ fn c18_server_part(rt: &FfiRuntime, thorough: bool) -> Stats {
     st
 }
 
+/// a write request that arrives while the application is inside `rodbus_server_update_database`:
+/// with the Rust API the handler mutex is held for the whole mutation, so the write is applied
+/// after it and both changes are there afterwards
+fn c18_write_during_transaction(rt: &FfiRuntime) -> Stats {
+    let mut st = Stats::default();
+    for (name, pdu, reg) in [("fc6", vec![6u8, 0, 1, 0xBE, 0xEF], 1u16), ("fc16", vec![16u8, 0, 1, 0, 1, 2, 0xBE, 0xEF], 1)] {
+        let ws = Arc::new(Mutex::new(WriteState { results: [Some((true, 1, 0)); 4], apply: true, ..Default::default() }));
+        let (server, addr, _l) = match ffi_server(rt, Variant::Tcp, &FilterSpec::Any, "127.0.0.1", ten_registers(), ws.clone(), [true; 4]) {
+            Ok(x) => x,
+            Err(e) => {
+                st.violation(Violation { signature: "MACHINERY:c-abi-server".into(), summary: e, replay: json!({}) });
+                return st;
+            }
+        };
+        let mut sock = connect_from("127.0.0.1", addr).unwrap();
+        let mut inner = sock.try_clone().unwrap();
+        let frame = mbap_frame(0x0D01, 1, &pdu);
+        let rc = update_database(
+            &server,
+            1,
+            Box::new(move |db| {
+                let _ = inner.write_all(&frame);
+                let _ = inner.flush();
+                // were the request handled now, it would be handled while this transaction is open
+                std::thread::sleep(Duration::from_millis(60));
+                let _ = unsafe { db_apply(db, &DbOp::Update(2, 0, 0x1234)) };
+            }),
+        );
+        let echo = read_exact_timeout(&mut sock, 12, 3000).unwrap_or_default();
+        let _ = sock.write_all(&mbap_frame(0x0D02, 1, &[3, 0, 0, 0, 2]));
+        let got = read_exact_timeout(&mut sock, 13, 3000).unwrap_or_default();
+        drop(server);
+        st.evaluations += 1;
+        st.class("write-request-during-database-transaction");
+        st.observe(&(name, rc, &echo, &got));
+        let want = [0x0D, 0x02, 0, 0, 0, 7, 1, 3, 4, 0x12, 0x34, 0xBE, 0xEF];
+        if rc != OK || echo.len() != 12 || echo[7] != pdu[0] || got != want {
+            st.violation(Violation {
+                signature: format!("write-during-transaction-lost:{name}"),
+                summary: format!("{name} request for register {reg} sent while a rodbus_server_update_database transaction (setting register 0) was open: update rc {rc}, write reply {}, registers 0..2 afterwards {} (expected {}): one of the two changes is gone", hex(&echo), hex(&got), hex(&want)),
+                replay: json!({"kind": "c18-server"}),
+            });
+        }
+    }
+    st
+}
+
 fn c18_client_part(rt: &FfiRuntime, thorough: bool) -> Stats {
     let mut st = Stats::default();
     let mut cases: Vec<(Op, PeerBehaviour, u8, u64)> = vec![];
@@ -3125,7 +3172,16 @@ pub fn check_c18(tier: &str) -> i32 {
     let (a, b, c, d, e, f, g) = on_plain_thread(|| {
         let rt = FfiRuntime::new(4);
         let a = c18_client_part(&rt, thorough);
-        let b = c18_server_part(&rt, thorough);
+        let mut b = c18_server_part(&rt, thorough);
+        let extra = c18_write_during_transaction(&rt);
+        b.evaluations += extra.evaluations;
+        for (k, n) in extra.classes {
+            *b.classes.entry(k).or_insert(0) += n;
+        }
+        b.distinct.extend(extra.distinct);
+        for v in extra.violations {
+            b.violation(v);
+        }
         let mut c = c18_call_errors(&rt, 0);
         let child = c18_invalid_parameters_in_child();
         c.evaluations += child.evaluations;
@@ -3149,7 +3205,7 @@ pub fn check_c18(tier: &str) -> i32 {
     rep.phase("TLS configuration through the C ABI (client and server) against independent rustls peers", e, json!({}));
     rep.phase("serial port settings and port states through the C ABI over ptys", f, json!({}));
     rep.phase("authorization callbacks of a C-ABI TLS server: sessions of different roles open at once, every connection order", g, json!({"roles": 3, "orders": 8, "units": 2, "requests": 8}));
-    for c in ["outcome:success", "outcome:exception", "outcome:timeout", "outcome:io", "outcome:bad-frame", "outcome:bad-response", "write-result-success", "write-result-named-exception", "write-result-raw-exception", "write-callback-not-set", "call:no-connection", "call:queue-full", "call:parameter-validation", "call:list-reuse", "enum:decode-level", "enum:client-state", "config:retry-strategy", "config:retry-strategy-doubling", "config:tls-client", "config:tls-server", "config:serial-settings", "enum:port-state", "authorization-callback:arguments-and-answer"] {
+    for c in ["outcome:success", "outcome:exception", "outcome:timeout", "outcome:io", "outcome:bad-frame", "outcome:bad-response", "write-result-success", "write-result-named-exception", "write-result-raw-exception", "write-callback-not-set", "call:no-connection", "call:queue-full", "call:parameter-validation", "call:list-reuse", "enum:decode-level", "enum:client-state", "config:retry-strategy", "config:retry-strategy-doubling", "config:tls-client", "config:tls-server", "config:serial-settings", "enum:port-state", "authorization-callback:arguments-and-answer", "write-request-during-database-transaction"] {
         rep.require_class(c);
     }
     rep.exhaustive = thorough;
@@ -3169,7 +3225,11 @@ pub fn replay_c18(v: &serde_json::Value) -> Vec<(String, String)> {
                 let mut st = Stats::default();
                 c18_client_case(&rt, op, peer, unit, timeout, &mut st)
             }
-            Some("c18-server") => c18_server_part(&rt, false).violations.into_iter().map(|x| (x.signature, x.summary)).collect(),
+            Some("c18-server") => {
+                let mut v: Vec<(String, String)> = c18_server_part(&rt, false).violations.into_iter().map(|x| (x.signature, x.summary)).collect();
+                v.extend(c18_write_during_transaction(&rt).violations.into_iter().map(|x| (x.signature, x.summary)));
+                v
+            }
             Some("c18-call-errors") => {
                 let mut v: Vec<(String, String)> = c18_call_errors(&rt, 0).violations.into_iter().map(|x| (x.signature, x.summary)).collect();
                 v.extend(c18_invalid_parameters_in_child().violations.into_iter().map(|x| (x.signature, x.summary)));
